@@ -237,7 +237,20 @@ pub fn check_huge_line(h: &HugeLine, obs: &mut Obs) -> CheckResult {
             ..Feed::one_shot()
         },
     };
-    check(&c, obs)
+    check(&c, obs)?;
+    // the documents are well-formed by construction: both deliveries agreeing on a rejection (an
+    // internal size limit hit at the same place) is not agreement on the right result
+    let (t, _) = drivers::run(&c.input.spec, Rc::new(c.input.bytes.clone()), &c.feed, None, false);
+    if t.fin != Final::End {
+        fail!(
+            format!("C01:{}:huge-line-rejected", parser.name()),
+            "{}: a well-formed document with one line of {} bytes is not parsed to a clean end under any delivery: {}",
+            c.input.spec.describe(),
+            h.len,
+            t.fin.short()
+        );
+    }
+    Ok(())
 }
 
 fn run(ctx: &Ctx) {
